@@ -319,9 +319,9 @@ fn rates(ctx: &Ctx, rep: &mut Report) {
                 Cell::Cuckoo { p, .. } => *p,
                 Cell::Qf { q, r, fill } => ((1usize << q) as f64 * fill * 2f64.powi(-((q + r) as i32))).min(1.0),
             };
-            let target = if bound_guess < 1e-5 { 150.0 } else { 400.0 };
+            let target = (if bound_guess < 1e-5 { 150.0 } else { 400.0 }) * ctx.tier.pick(1.0, 8.0);
             // bounds below 1e-8 cannot be resolved; such cells only detect gross excess (any false positive)
-            let probes = if bound_guess < 1e-8 { 20_000 } else { ((target / (bound_guess * seeds as f64)).ceil() as usize).clamp(2000, 2_000_000) };
+            let probes = if bound_guess < 1e-8 { 20_000 } else { ((target / (bound_guess * seeds as f64)).ceil() as usize).clamp(2000, ctx.tier.pick(2_000_000, 8_000_000)) };
             let seeds = match cell {
                 Cell::Bloom { n, .. } | Cell::Cuckoo { n, .. } if *n >= 20_000 => (seeds / 4).max(32),
                 _ => seeds,
